@@ -3,6 +3,7 @@ C04 — a parser is emitted exactly for the LALR(1) grammars.
 (first layer: `set_action` accepts a repeated identical action and nothing else)
 -/
 import KikiVerif.Model.Table
+import KikiVerif.Proofs.Table
 
 namespace KikiVerif.C04
 open KikiVerif.Table KikiVerif.Machine KikiVerif.LR
@@ -27,7 +28,21 @@ theorem C04_setAction_fresh (tb : TB) (state col : Nat) (it : Item) (a : Action)
     setAction tb state col it a = .ok { tb with actions := tb.actions ++ [((state, col), (it, a))] } := by
   unfold setAction; rw [hl]
 
+/-- **C04 at the level of the automaton**: `machine_to_table` succeeds only if no state of the automaton it is
+given has two items demanding different actions on one lookahead column; and it reports a conflict only if
+some state has (`C11_payload`).  What remains for the full property is that the automaton *is* the LALR(1)
+automaton of the grammar (DESIGN.md §6.3): compared with a specification-side construction on every run. -/
+theorem C04_ok_conflict_free (c : Ctx) (m : Machine) (t : Table) (h : machineToTable c m = .ok t) :
+    ¬ ∃ s e n, Genuine c m s e n :=
+  ok_conflict_free c m t h
+
+theorem C04_conflict_genuine (c : Ctx) (m : Machine) (s : Nat) (e n : Item)
+    (h : machineToTable c m = .conflict s e n) : Genuine c m s e n :=
+  conflict_genuine c m s e n h
+
 end KikiVerif.C04
 
 #print axioms KikiVerif.C04.C04_setAction_ok_iff
 #print axioms KikiVerif.C04.C04_setAction_fresh
+#print axioms KikiVerif.C04.C04_ok_conflict_free
+#print axioms KikiVerif.C04.C04_conflict_genuine
